@@ -5,6 +5,7 @@ package twcc
 import (
 	"bytes"
 	"encoding/json"
+	"errors"
 	"sort"
 	"sync"
 	"testing"
@@ -32,7 +33,12 @@ type vfHxScript struct {
 	// concurrent level
 	Assign  []int `json:"assign"`  // goroutine -> index into Streams
 	Batches []int `json:"batches"` // packets per goroutine in each barrier-separated batch
+	// FailEvery > 0: the transport-side writer returns an error for every FailEvery-th packet of each goroutine (after it
+	// has seen the packet: the number was allocated and has left the interceptor)
+	FailEvery int `json:"failevery"`
 }
+
+var errVfHxInjected = errors.New("injected transport failure") //nolint:gochecknoglobals
 
 const vfHxDecoyURI = "urn:ietf:params:rtp-hdrext:sdes:mid"
 
@@ -226,6 +232,9 @@ func vfHxConc(t *testing.T, sc *vfHxScript, out *vfWriter) { //nolint:gocognit,c
 					}
 					gs[g].seen = append(gs[g].seen, w)
 				}
+				if sc.FailEvery > 0 && int(h.Timestamp&0xFFFFF)%sc.FailEvery == sc.FailEvery-1 {
+					return 0, errVfHxInjected
+				}
 
 				return h.MarshalSize() + len(pl), nil
 			}))
@@ -252,7 +261,7 @@ func vfHxConc(t *testing.T, sc *vfHxScript, out *vfWriter) { //nolint:gocognit,c
 						_ = h.SetExtension(uint8(st.ID%14+1), []byte{5}) //nolint:gosec
 					}
 					if st.ID != 0 {
-						if _, err := w.Write(h, pl, nil); err != nil {
+						if _, err := w.Write(h, pl, nil); err != nil && !errors.Is(err, errVfHxInjected) {
 							gs[g].seen = append(gs[g].seen, -1)
 						}
 
@@ -262,7 +271,7 @@ func vfHxConc(t *testing.T, sc *vfHxScript, out *vfWriter) { //nolint:gocognit,c
 					_, err := w.Write(h, pl, nil)
 					after, _ := h.Marshal()
 					gs[g].plain++
-					if err != nil || !bytes.Equal(before, after) || !bytes.Equal(pl, []byte{byte(g), 1, 2}) {
+					if (err != nil && !errors.Is(err, errVfHxInjected)) || !bytes.Equal(before, after) || !bytes.Equal(pl, []byte{byte(g), 1, 2}) {
 						gs[g].touched++
 					}
 				}
